@@ -50,6 +50,12 @@ class HarnessExecutor(concurrent.futures.ThreadPoolExecutor):
         self.jobs = [j for j in self.jobs if not j[0].cancelled()]      # a real pool drops cancelled work items
         return len(self.jobs)
 
+    def fail_one(self, exc):
+        """the job dies with `exc` before it touches the disk (ENOSPC, EACCES, ...)"""
+        f, fn, a, k = self.jobs.pop(0)
+        if f.set_running_or_notify_cancel():
+            f.set_exception(exc)
+
     def run_one(self):
         f, fn, a, k = self.jobs.pop(0)
         if not f.set_running_or_notify_cancel():
@@ -60,6 +66,20 @@ class HarnessExecutor(concurrent.futures.ThreadPoolExecutor):
             f.set_exception(e)
 
 
+class RecordingStorage:
+    """stands in for SQLiteStorage under the per-operation runs: records what the manager asks it to mark finished"""
+
+    def __init__(self):
+        self.finished = []
+
+    async def add_blobs(self, *rows, finished=False):
+        if finished:
+            self.finished.extend(r[0] for r in rows)
+
+    async def sync_missing_blobs(self, blob_files):
+        return set()
+
+
 def key_of(k):
     return (None, None) if k == 0 else ('10.0.0.%d' % k, 3000 + k)
 
@@ -67,7 +87,7 @@ def key_of(k):
 class Impl:
     """one blob under test; do(op) -> (result, observation with raw bytes)"""
 
-    def __init__(self, kind, cb, blob_hash_hex, file=None, expected=None):
+    def __init__(self, kind, cb, blob_hash_hex, file=None, expected=None, root=None, setup=False):
         """the blob object comes from the real BlobManager.get_blob(hash, expected) over a blob directory that may
         already contain a file named after the hash (restart); the manager's completion callback (database
         bookkeeping, C18) is replaced by a counter"""
@@ -78,9 +98,10 @@ class Impl:
         self.ex = HarnessExecutor()
         self.loop.set_default_executor(self.ex)
         self.kind = kind
-        self.root = tempfile.mkdtemp(prefix='c01_')
+        self.root = root or tempfile.mkdtemp(prefix='c01_')
         self.dir = os.path.join(self.root, 'blobfiles')
-        os.mkdir(self.dir)
+        if not root:
+            os.mkdir(self.dir)
         self.completed = 0
         self.hash_hex = blob_hash_hex
         if file is not None:
@@ -89,8 +110,17 @@ class Impl:
         conf = Config(data_dir=self.root, wallet_dir=self.root, download_dir=self.root,
                       config=os.path.join(self.root, 'settings.yml'))
         conf.save_blobs = kind == 'file'
-        self.mgr = BlobManager(self.loop, self.dir, None, conf)
+        self.storage = RecordingStorage()
+        self.mgr = BlobManager(self.loop, self.dir, self.storage, conf)
         self.mgr.blob_completed = self._completed if cb else None
+        if setup:
+            # the real start-up pass over the blob directory (on a normal executor), then the harness takes over
+            conf.track_bandwidth = False
+            pool = concurrent.futures.ThreadPoolExecutor(max_workers=1)
+            self.loop.set_default_executor(pool)
+            self.loop.run_until_complete(self.mgr.setup())
+            pool.shutdown(wait=True)
+            self.loop.set_default_executor(self.ex)
         self.blob = self.mgr.get_blob(blob_hash_hex, expected)
         if not isinstance(self.blob, BlobFile if kind == 'file' else BlobBuffer):
             raise RuntimeError('blob manager returned a %s for kind %s' % (type(self.blob).__name__, kind))
@@ -141,8 +171,24 @@ class Impl:
             elif name == 'io':
                 if self.ex.pending():
                     self.ex.run_one()
+            elif name == 'iofail':
+                if self.ex.pending():
+                    self.ex.fail_one(OSError(28, 'No space left on device'))
+                    res = 'failed'
             elif name == 'advance':
                 self.now += op[1]
+            elif name == 'isv':
+                res = ['bool', bool(self.mgr.is_blob_verified(self.hash_hex, op[1]))]
+            elif name == 'ensure':
+                before = len(self.storage.finished)
+                coro = self.mgr.ensure_completed_blobs_status([self.hash_hex])
+                try:
+                    coro.send(None)
+                except StopIteration:
+                    pass
+                else:
+                    raise RuntimeError('ensure_completed_blobs_status suspended')
+                res = ['bool', self.hash_hex in self.storage.finished[before:]]
             elif name == 'read':
                 with self.blob.reader_context() as r:
                     res = ['read', r.read()]
@@ -259,10 +305,13 @@ class Monitor:
         self.winner = None                 # (bytes, number of writers existing) of the first result of this epoch
         self.ever_won = False
         self.saves = 0                     # times verified went False -> True
+        self.fail_injected = False         # the harness made the executor job of the save in flight fail
         self.last_idle = -1                # last op index after which the ready queue was empty
         self.prev = None
         self.n = 0
         self.initial = None
+        self.crashed = False               # the directory was left behind by a process killed during a disk write
+        self.true_length = None
 
     def start(self, file, expected, o):
         """the object as BlobManager.get_blob(hash, expected) returned it over a directory that may hold a file"""
@@ -281,6 +330,9 @@ class Monitor:
                     self.fail(f'start: get_blob(hash, {expected}) took over a file that does not hash to the name')
                 if o['length'] != len(b):
                     self.fail(f'start: verified blob of length {o["length"]} holds {len(b)} bytes')
+                if self.crashed and (sha(b) != self.h or len(b) != self.true_length):
+                    self.fail(f'restart after a crash inside the disk write: a {len(b)} byte file that does not hash to the '
+                              f'name was taken over as a verified blob of length {o["length"]} (true length {self.true_length})')
                 self.ever_won = True
         elif file is not None and expected and len(file) == expected:
             self.fail('start: an intact file of the announced length was not taken over')
@@ -317,6 +369,15 @@ class Monitor:
             if not (isinstance(o['length'], int) and 0 <= o['length'] <= MAX):
                 self.fail(f'op {i}: length {o["length"]} outside 0..2^21 was accepted')
             self.length = o['length']
+        # ---- the manager's queries: pure, and "yes" / recorded finished (-> announced) only for a verified stored blob
+        if name in ('isv', 'ensure') and isinstance(res, list):
+            what = 'is_blob_verified(%r)' % (op[1],) if name == 'isv' else 'ensure_completed_blobs_status'
+            if prev is not None and canon_obs(o) != canon_obs(prev):
+                self.fail(f'op {i}: {what} changed the blob (store / flags / writers differ afterwards)')
+            if res[1] and not (o['verified'] and o['store'] is not None and sha(o['store']) == self.h
+                               and len(o['store']) == self.length):
+                self.fail(f'op {i}: {what} answered yes / recorded the blob finished although it is not a verified, '
+                          f'stored copy of the named bytes')
         # ---- reading: only a verified blob, and the reader gets the named bytes of the accepted length
         if name == 'read':
             if isinstance(res, list):
@@ -389,8 +450,9 @@ class Monitor:
                     and not (name == 'closeblob' or deleted or (name in ('closew', 'write') and op[1] == j)):
                 self.fail(f'op {i}: writer {j} was cancelled by {name} although no writer delivered a correct copy')
         # ---- nothing but the named bytes is ever stored / verified
-        if o['extra_files']:
-            self.fail(f'op {i}: unexpected files in the blob directory: {o["extra_files"]}')
+        extra = [n for n in o['extra_files'] if not (self.crashed and n.endswith('.tmp'))]   # a torn temp file may stay
+        if extra:
+            self.fail(f'op {i}: unexpected files in the blob directory: {extra}')
         if o['store'] is not None:
             b = o['store']
             if sha(b) != self.h or len(b) != self.length or not 0 < len(b) <= MAX:
@@ -412,7 +474,15 @@ class Monitor:
             self.fail(f'op {i}: completion callback fired {o["completed"]} times for {self.saves} verification(s)')
         # ---- as soon as the loop is idle and the executor has nothing to do: a complete correct copy delivered on
         #      this object since its last reset means verified, with exactly those bytes, everybody else shut down
-        if deleted or consumed:
+        if name == 'iofail' and res == 'failed':
+            self.fail_injected = True
+        failed_save_over = self.fail_injected and prev is not None and prev['writing'] and not o['writing'] \
+            and not o['verified']
+        if failed_save_over:
+            self.fail_injected = False
+        if deleted or consumed or (name == 'iofail' and res == 'failed') or failed_save_over:
+            # (a failed disk write: the copies delivered until its save has wound down cannot be stored; the next
+            #  delivery must be)
             self.epoch_start = i
             self.winner = None
         if o['qlen'] == 0 and o['io'] == 0:
@@ -609,15 +679,17 @@ def gen_case(rng, run):
             elif c < 0.86:
                 sess.do(['drain'])
             elif c < 0.91:
-                sess.do(['io'])
+                sess.do(['io'] if rng.random() < 0.85 else ['iofail'])
             elif c < 0.94 and live:
                 sess.do(['closew', rng.choice(live)[0]])
             elif c < 0.955:
                 sess.do(['closeblob'])
             elif c < 0.960:
                 sess.do(['read'])
-            elif c < 0.965:
+            elif c < 0.963:
                 sess.do(['advance', rng.choice([1, 4, 6, 30])])
+            elif c < 0.965:
+                sess.do(rng.choice([['isv', L], ['isv', L + 1], ['isv', None], ['ensure']]))
             elif c < 0.975:
                 res, _ = sess.do(['delete'])
                 if res == 'ok':
@@ -703,12 +775,24 @@ def gen_redownload(rng, run):
 
 
 class Session:
-    def __init__(self, kind, cb, data, blob_hash=None, file=None, expected=None):
+    def __init__(self, kind, cb, data, blob_hash=None, file=None, expected=None, crash=None):
         self.kind, self.cb, self.data = kind, cb, data
-        self.file, self.expected = file, expected
         self.hash = blob_hash if blob_hash is not None else sha(data)
-        self.impl = Impl(kind, cb, self.hash.hex(), file, expected)
+        self.crash = crash
+        if crash is not None:
+            # a previous process received the whole blob and was killed inside the executor's disk write; this one
+            # starts over the directory it left behind (real BlobManager.setup(), then get_blob(hash, true length))
+            root = crashed_directory(self.hash.hex(), data, crash['kill_after'])
+            p = os.path.join(root, 'blobfiles', self.hash.hex())
+            file = open(p, 'rb').read() if os.path.isfile(p) else None
+            expected = None if file is not None else len(data)
+            self.impl = Impl(kind, cb, self.hash.hex(), None, len(data), root=root, setup=True)
+        else:
+            self.impl = Impl(kind, cb, self.hash.hex(), file, expected)
+        self.file, self.expected = file, expected
         self.mon = Monitor(self.hash, cb, kind)
+        self.mon.crashed = crash is not None
+        self.mon.true_length = len(data)
         self.ops = []
         self.start_obs = self.impl.observe()
         self.mon.start(file, expected, self.start_obs)
@@ -728,6 +812,8 @@ class Session:
         self.mon.readable(self.impl.blob, self.trace[-1][1] if self.trace else self.start_obs)
         case = {'kind': self.kind, 'cb': self.cb, 'data': self.data.hex(), 'hash': self.hash.hex(),
                 'file': None if self.file is None else self.file.hex(), 'expected': self.expected, 'ops': self.ops}
+        if self.crash is not None:
+            case['crash'] = self.crash
         return case, [('start', self.start_obs)] + self.trace, self.mon
 
     def close(self):
@@ -738,7 +824,7 @@ def run_fixed(case):
     """execute a stored / enumerated case (concrete op list) on the implementation"""
     f = case.get('file')
     sess = Session(case['kind'], case['cb'], bytes.fromhex(case['data']), bytes.fromhex(case['hash']),
-                   None if f is None else bytes.fromhex(f), case.get('expected'))
+                   None if f is None else bytes.fromhex(f), case.get('expected'), case.get('crash'))
     try:
         for op in case['ops']:
             sess.do(op)
@@ -771,6 +857,114 @@ def read_everywhere_family():
                         ops += [['write', 1, data[6:].hex()], ['read']]
                     ops += [['drain'], ['io'], ['drain'], ['read']]
                     yield {'kind': kind, 'cb': cb, 'data': data.hex(), 'hash': h, 'file': None, 'expected': None, 'ops': ops}
+
+
+def query_everywhere_family():
+    """deterministic: BlobManager.is_blob_verified(hash, right / wrong / no length) and ensure_completed_blobs_status
+    after EVERY operation of a delivery (one corrupted peer first, then the correct one), both blob classes"""
+    data = bytes(range(0x41, 0x41 + 10))
+    h = sha(data).hex()
+    bad = data[:9] + b'\x00'
+    for kind in ('file', 'buffer'):
+        for expected in (None, 10):
+            q = [['isv', 10], ['isv', 11], ['isv', None], ['ensure']]
+            ops = list(q)
+            if expected is None:
+                ops += [['len', 10]] + q
+            ops += [['open', 1]] + q + [['write', 0, bad.hex()]] + q + [['tick']] + q + [['open', 2]] + q
+            ops += [['write', 1, data[:4].hex()]] + q + [['write', 1, data[4:].hex()]] + q
+            for step in ('tick', 'tick', 'io', 'tick', 'tick', 'tick', 'tick', 'drain', 'io', 'drain'):
+                ops += [[step]] + q
+            ops += [['read']] + q + [['drain'], ['io'], ['drain']]
+            yield {'kind': kind, 'cb': True, 'data': data.hex(), 'hash': h, 'file': None, 'expected': expected, 'ops': ops}
+
+
+def failed_write_family():
+    """deterministic: the executor job of the first save fails; a read and the manager's queries after every loop
+    iteration of the failure path; then a second peer delivers and the save succeeds"""
+    data = bytes(range(0x61, 0x61 + 9))
+    h = sha(data).hex()
+    q = [['read'], ['isv', 9], ['ensure']]
+    for cb in (True, False):
+        for second_waiting in (False, True):
+            ops = [['len', 9], ['open', 1], ['open', 2], ['write', 1, data[:4].hex()], ['write', 0, data.hex()], ['drain']] + q
+            if second_waiting:
+                ops += [['open', 3], ['write', 2, data.hex()], ['tick']] + q
+            ops += [['iofail']] + q
+            for _ in range(5):
+                ops += [['tick']] + q
+            ops += [['drain'], ['io'], ['drain']] + q + [['open', 1], ['write', 3 if second_waiting else 2, data[:5].hex()],
+                    ['write', 3 if second_waiting else 2, data[5:].hex()], ['drain']] + q + [['io'], ['tick']] + q + [['drain']] + q
+            ops += [['drain'], ['io'], ['drain']]
+            yield {'kind': 'file', 'cb': cb, 'data': data.hex(), 'hash': h, 'file': None, 'expected': None, 'ops': ops}
+
+
+CRASH_CHILD = r"""
+import sys, os, signal, asyncio, logging
+logging.disable(logging.CRITICAL)
+import lbry.wallet
+import lbry.blob.blob_file as bf
+from lbry.blob.blob_manager import BlobManager
+from lbry.conf import Config
+root, blob_hash, kill_after = sys.argv[1], sys.argv[2], int(sys.argv[3])
+data = open(os.path.join(root, 'data.bin'), 'rb').read()
+blob_dir = os.path.join(root, 'blobfiles')
+real_open = open
+class Dying:
+    def __init__(self, f): self.f = f
+    def __enter__(self): return self
+    def __exit__(self, *a): self.f.close()
+    def write(self, b):
+        self.f.write(b[:kill_after]); self.f.flush(); os.fsync(self.f.fileno())
+        os.kill(os.getpid(), signal.SIGKILL)
+def dying_open(path, mode='r', *a, **k):
+    f = real_open(path, mode, *a, **k)
+    return Dying(f) if 'w' in mode and str(path).startswith(blob_dir) else f
+bf.open = dying_open                      # the disk beneath BlobFile._write_blob
+async def main():
+    loop = asyncio.get_running_loop()
+    conf = Config(data_dir=root, wallet_dir=root, download_dir=root, config=os.path.join(root, 'settings.yml'))
+    class S:
+        async def add_blobs(self, *r, finished=False): pass
+    mgr = BlobManager(loop, blob_dir, S(), conf)
+    blob = mgr.get_blob(blob_hash, len(data))
+    w = blob.get_blob_writer('10.0.0.1', 3333)
+    w.write(data[:len(data) // 2]); w.write(data[len(data) // 2:])
+    await asyncio.wait_for(blob.verified.wait(), 20)
+asyncio.run(main())
+"""
+
+
+def crashed_directory(hash_hex, data, kill_after):
+    """a real child process receives the blob and is SIGKILLed inside the executor's write after `kill_after` bytes"""
+    import subprocess
+    import sys as _sys
+    root = tempfile.mkdtemp(prefix='c01c_')
+    os.mkdir(os.path.join(root, 'blobfiles'))
+    with open(os.path.join(root, 'data.bin'), 'wb') as f:
+        f.write(data)
+    r = subprocess.run([_sys.executable, '-W', 'ignore', '-c', CRASH_CHILD, root, hash_hex, str(kill_after)],
+                       env=os.environ, capture_output=True, timeout=60)
+    if r.returncode != -9:
+        raise RuntimeError('the child was not killed inside the disk write: rc=%s %s' % (r.returncode, r.stderr[-400:]))
+    return root
+
+
+def crash_restart_family(tier='quick'):
+    """deterministic: process death after 0 bytes / half / all bytes of the disk write, then a restart
+    (thorough: also a 2 MiB blob torn at 1 MiB)"""
+    data = bytes(range(0x30, 0x30 + 40))
+    h = sha(data).hex()
+    if tier == 'thorough':
+        big = hashlib.sha384(b'big').digest() * (MAX // 48 + 1)
+        big = big[:MAX]
+        yield {'kind': 'file', 'cb': True, 'data': big.hex(), 'hash': sha(big).hex(), 'file': None, 'expected': None,
+               'crash': {'kill_after': MAX // 2}, 'ops': [['read'], ['isv', MAX], ['ensure'], ['len', MAX], ['drain']]}
+    for kill_after in (0, 20, 40):
+        ops = [['read'], ['isv', 40], ['isv', None], ['ensure'], ['len', 40], ['open', 1], ['write', 0, data[:13].hex()],
+               ['write', 0, data[13:].hex()], ['drain'], ['io'], ['drain'], ['read'], ['ensure']]
+        yield {'kind': 'file', 'cb': True, 'data': data.hex(), 'hash': h, 'file': None, 'expected': None,
+               'crash': {'kill_after': kill_after}, 'ops': ops}
 
 
 def interleavings(a, b):
@@ -839,7 +1033,8 @@ def judge(run, model, case, trace, mon, label):
         for what, sig in mon.fails:
             run.violation(case, what, signature=sig if sig else {'case': hashlib.sha1(vlib.canon(case).encode()).hexdigest()})
         return
-    impl = [[['read', res[1].hex()] if isinstance(res, list) and res[0] == 'read' else res, canon_obs(o)] for res, o in trace]
+    impl = [[['read', res[1].hex()] if isinstance(res, list) and res[0] == 'read' else ('ok' if res == 'failed' else res),
+             canon_obs(o)] for res, o in trace]
     mod = model_trace(model, case)
     if len(impl) != len(mod):
         run.compare('C01.run', case, {'steps': len(impl)}, {'steps': len(mod)})
@@ -1092,7 +1287,11 @@ def main(run):
                 'BlobManager.get_blob(hash, expected), 12% of them over a directory already holding an intact / truncated / '
                 'over-long file (restart), 18% with the length known at creation; every 8th case downloads the same object '
                 '2-3 times with a reset (BlobBuffer reader consuming it / delete()) in between. A deterministic family (24 cases) '
-                'attempts a read after every operation of a delivery advanced one loop iteration at a time. Then every interleaving of '
+                'attempts a read after every operation of a delivery advanced one loop iteration at a time; further deterministic '
+                'families: BlobManager.is_blob_verified(hash, right / wrong / no length) and ensure_completed_blobs_status after '
+                'every operation; the executor job of a save failing (ENOSPC) with reads and queries after every hop, then a '
+                'second delivery; a real child process SIGKILLed after 0 / half / all bytes of the disk write followed by the real '
+                'BlobManager.setup() over what it left behind. Then every interleaving of '
                 '2 writers x 1-3 chunks x 5 data kinds on a 3-byte blob. distinct = distinct (kind, data, op list); '
                 'non-trivial = at least one chunk was accepted by a writer. Monitor-only: 2 MiB and 2 MiB+1 blobs. Announce: '
                 '3-6 blobs on the real BlobManager + SQLiteStorage with the real blob_completed, each known from a descriptor '
@@ -1108,6 +1307,15 @@ def main(run):
     for case in read_everywhere_family():
         c, trace, mon = run_fixed(case)
         judge(run, model, c, trace, mon, 'read-everywhere')
+    for case in query_everywhere_family():
+        c, trace, mon = run_fixed(case)
+        judge(run, model, c, trace, mon, 'query-everywhere')
+    for case in failed_write_family():
+        c, trace, mon = run_fixed(case)
+        judge(run, model, c, trace, mon, 'failed-write')
+    for case in crash_restart_family(run.tier):
+        c, trace, mon = run_fixed(case)
+        judge(run, model, c, trace, mon, 'crash-restart')
     n_rand = vlib.scaled(run.tier, 5000, 200000)
     for n in range(n_rand):
         if n % 8 == 7:
